@@ -216,6 +216,27 @@ class Ctx:
         self.checker_cmd = ''
         self.known = [f for f in load_known()['findings'] if f['property'] == pid]
         self.thorough = tier == 'thorough'
+        self.kept = []              # (label, returned object, snapshot at return time, replay info)
+
+    # results are values: what a call returned must not change when the library is used again
+    def keep(self, label, obj, **replay):
+        """remember a returned array (the object itself, not a copy) together with a snapshot of its contents; `verify_kept`
+        reports a violation when a later call changed it (a result aliased to a buffer, cache or internal state)"""
+        import numpy as np
+        if len(self.kept) < 4000 and isinstance(obj, np.ndarray) and obj.size:
+            self.kept.append((label, obj, np.array(obj, copy=True), replay))
+
+    def verify_kept(self):
+        import numpy as np
+        for label, obj, snap, replay in self.kept:
+            same = obj.shape == snap.shape and bool(np.all((obj == snap) | ((obj != obj) & (snap != snap))))
+            if not same:
+                self.violation('%s: an array returned by an earlier call was changed by later calls (the result is aliased to '
+                               'internal state)' % label, returned=str(snap.tolist())[:300], now=str(obj.tolist())[:300], **replay)
+                break
+        n = len(self.kept)
+        self.kept = []
+        return n
 
     # budgets: quick/thorough
     def budget(self, quick, thorough):
@@ -275,6 +296,19 @@ def lean_obligations(ctx: Ctx, module, theorems):
         # which of the registered theorems are affected?  If the error is in an imported module every
         # theorem downstream is unchecked.
         ctx.oblige('build:' + module, 'build', False, json.dumps(errors[:5]))
+        # The regenerated definitions (lean/Ndt/Gen) may no longer fit the hand-written proofs or the driver.  The broken
+        # obligations stay recorded; for the correspondence engines and the failing-input search the generated files are put
+        # back to the last known-good translation so that the driver can still be built and run.
+        try:
+            from translator import py2lean
+            with LeanLock():
+                restored = py2lean.restore_baseline_files()
+            if restored:
+                ok2, _e2, _o2, _dt2 = lake_build(['Ndt.Driver.Main'])
+                ctx.notes.append('build failed with the regenerated definitions; generated files restored to the baseline translation '
+                                 'for the driver (driver build %s)' % ('ok' if ok2 else 'still failing'))
+        except Exception as ex_:          # pragma: no cover
+            ctx.notes.append('baseline fallback failed: %r' % ex_)
     else:
         ctx.oblige('build:' + module, 'build', True, '%.1fs' % dt)
     if build_ok:
@@ -304,6 +338,11 @@ def lean_obligations(ctx: Ctx, module, theorems):
 
 def finish(ctx: Ctx, level='proof'):
     """Verdict + evidence.  Returns the exit code."""
+    nk = ctx.verify_kept()
+    if nk:
+        ctx.notes.append('%d returned arrays were kept (not copied) and re-examined at the end of the run: unchanged' % nk
+                         if not any('aliased to internal state' in v.get('what', '') for v in ctx.violations) else
+                         'a kept result changed after later calls')
     os.makedirs(os.path.join(VERIF, 'evidence'), exist_ok=True)
     os.makedirs(os.path.join(VERIF, 'replays', ctx.pid), exist_ok=True)
     for e, st in ctx.engines.items():
